@@ -1451,6 +1451,8 @@ func (self *LockDB) GetOrNewLockManager(command *protocol.LockCommand) *LockMana
 		self.mGlock.Unlock()
 		return lockManager
 	}
+	// counted before the slot is examined: whoever takes the slot from now on looks into the map
+	atomic.AddUint32(&fastValue.count, 1)
 	if atomic.CompareAndSwapUint32(&fastValue.lock, 0, 1) {
 		self.mGlock.Unlock()
 
@@ -1466,10 +1468,20 @@ func (self *LockDB) GetOrNewLockManager(command *protocol.LockCommand) *LockMana
 		lockManager.fastKeyValue = fastValue
 		atomic.AddUint32(&lockManager.refCount, 1)
 		fastValue.manager = lockManager
-		atomic.AddUint32(&fastValue.count, 1)
 		atomic.StoreUint32(&fastValue.lock, 2)
 		atomic.AddUint32(&lockManager.state.KeyCount, 1)
 		return lockManager
+	}
+	fastSlotChanged := atomic.LoadUint32(&fastValue.lock) != 2
+	if !fastSlotChanged {
+		fastLockManager := fastValue.manager
+		fastSlotChanged = fastLockManager != nil && fastLockManager.lockKey == command.LockKey && atomic.LoadUint32(&fastLockManager.refCount) != 0xffffffff
+	}
+	if fastSlotChanged {
+		// since the slot was examined above it is being filled, or was filled with this very key
+		atomic.AddUint32(&fastValue.count, 0xffffffff)
+		self.mGlock.Unlock()
+		return self.GetOrNewLockManager(command)
 	}
 
 	freeLockManagerTail := atomic.AddUint32(&self.freeLockManagerTail, 1) % self.maxFreeLockManagerCount
@@ -1483,7 +1495,6 @@ func (self *LockDB) GetOrNewLockManager(command *protocol.LockCommand) *LockMana
 	self.locks[command.LockKey] = lockManager
 	lockManager.lockKey = command.LockKey
 	lockManager.fastKeyValue = fastValue
-	atomic.AddUint32(&fastValue.count, 1)
 	self.mGlock.Unlock()
 	atomic.AddUint32(&lockManager.state.KeyCount, 1)
 	atomic.AddUint64(&lockManager.state.SlowKeyCount, 1)
